@@ -358,6 +358,23 @@ func drawText(t *rapid.T, k int) string {
 	if !utf8.ValidString(s) {
 		return "x"
 	}
+	// GSM 7-bit: in a quarter of the cases steer the septet count to a multiple of 8
+	// (and 7 mod 8) with a drawn final character, so that every end-of-message
+	// decision of the packed form is met: final '@' / CR after a septet below or
+	// above 0x40, after an escape pair, or an ordinary last character.
+	if (k == cGSMUnpacked || k == cGSMPacked) && rapid.IntRange(0, 3).Draw(t, "steer_end") == 0 {
+		if sep, err := ref.GSMEncode(s); err == nil {
+			want := rapid.SampledFrom([]int{0, 0, 0, 7}).Draw(t, "mod8")
+			last := rapid.SampledFrom([]string{"@", "@", "\r", "a", "1", "[", "à", "¡"}).Draw(t, "lastchar")
+			prev := rapid.SampledFrom([]string{"1", " ", "?", "a", "G", "à", "¡", "]", "@", "\r"}).Draw(t, "prevchar")
+			lsep, _ := ref.GSMEncode(prev + last)
+			for (len(sep)+len(lsep))%8 != want {
+				s += "x"
+				sep = append(sep, 0x78)
+			}
+			s += prev + last
+		}
+	}
 	return s
 }
 
